@@ -34,7 +34,7 @@ M = {
         "add_only": True,
     },
     "engines": [{"name": "vf-monitors", "path": "/verif/check", "serves_properties": [c["property_id"] for c in checks],
-                 "kind_free_text": "runtime monitoring: the real library rebuilt from the working tree under ASan+UBSan / TSan / valgrind / allocator ledger, driven by enumerated and hostile workloads and judged by independent reference oracles at the API boundary"}],
+                 "kind_free_text": "runtime monitoring: the real library rebuilt from the working tree under ASan+UBSan / TSan / valgrind / allocator ledger (gcc), plus a coverage-guided phase for C12 (clang + libFuzzer), driven by enumerated, structured and hostile workloads and judged by independent reference oracles at the API boundary"}],
     "checks": checks,
     "not_applicable": na,
     "notes": "Every check rebuilds the library from /repo's working tree (VERIF_REPO overrides) on every run; nothing needs setup. Known genuine defects are listed in /verif/known_findings.json.",
